@@ -1,7 +1,7 @@
 // Runtime contract check of title-casing (attached to harper-core/src/title_case.rs).
 // BOUNDED stand-in for C18 (make_title_case is peekable()/enumerate()/iter_mut() code over a parsed Document
 // and dictionary data: outside Verus; a symbolic Document is out of CBMC's reach). For every text made of
-// <= 3 of 39 fragments (plus every 4-fragment text over a 12-fragment subset), joined by single blanks,
+// <= 3 of 42 fragments (plus every 4-fragment text over a 12-fragment subset), joined by single blanks,
 // through the plain-English front-end and the curated dictionary:
 //  (a) the call returns (no panic) a string with the same number of characters;
 //  (b) every character is unchanged, or the same letter in the other case, or an apostrophe variant
@@ -20,12 +20,21 @@ fn rac_same_letter(a: char, b: char) -> bool {
     a == b || a.to_lowercase().eq(b.to_lowercase()) || a.to_uppercase().eq(b.to_uppercase()) || (apo.contains(&a) && apo.contains(&b))
 }
 
+// "normalising curly apostrophes of known proper nouns": a changed apostrophe must sit inside a word token that the
+// dictionary knows as a proper noun
+fn rac_in_proper_noun(text: &str, i: usize, dict: &FstDictionary) -> bool {
+    let doc = Document::new_from_vec(Lrc::new(text.chars().collect()), &PlainEnglish, dict);
+    doc.get_tokens().iter().any(|t| t.span.start <= i && i < t.span.end && matches!(&t.kind, TokenKind::Word(Some(m)) if m.is_proper_noun()))
+}
+
 #[test]
 fn rac_title_case() {
     let frags = ["the", "a", "about", "videopress", "united", "states", "new", "york", "and", "of", "in", "THE", "iPhone", "o’neill", "mother-in-law", "42", "2nd",
                  "é", "über", "x.", ",", "\"quoted\"", "(", "i.e.", "e-mail", "at", "Is", "wordpress.com", "mcdonald’s", "IBM", "nasa", "ÉCOLE", "don't", "with",
                  // initials whose upper-case form is more than one character
-                 "ßtrasse", "ﬁsh", "ŉ", "ebay", "macos"];
+                 "ßtrasse", "ﬁsh", "ŉ", "ebay", "macos",
+                 // curly quotes and primes that are not apostrophes of proper nouns must stay as they are
+                 "‘best’", "5’", "10’’"];
     let sub = [0usize, 1, 2, 3, 8, 11, 13, 14, 20, 23, 28, 33];
     let dict = FstDictionary::curated();
     let mut texts: Vec<String> = vec![String::new()];
@@ -64,7 +73,7 @@ fn rac_title_case() {
                 let out: Vec<char> = once.chars().collect();
                 if out.len() != src.len() {
                     bad = Some(format!("result {:?} has {} characters, the input {}", once, out.len(), src.len()));
-                } else if let Some(i) = (0..src.len()).find(|&i| !rac_same_letter(src[i], out[i])) {
+                } else if let Some(i) = (0..src.len()).find(|&i| !rac_same_letter(src[i], out[i]) || (src[i] != out[i] && !src[i].is_alphabetic() && !rac_in_proper_noun(t, i, &dict))) {
                     bad = Some(format!("result {:?} differs from the input at character {} in more than letter case ({:?} -> {:?})", once, i, src[i], out[i]));
                 } else if once != twice {
                     bad = Some(format!("not idempotent: once {:?}, twice {:?}", once, twice));
@@ -130,5 +139,5 @@ fn rac_title_case() {
         }
         if cases == 4321 { println!("RAC-SAMPLE title_case {{\"text\": {:?}, \"title_case\": {:?}}}", t, r.as_ref().unwrap().0); }
     }
-    println!("RAC-OK title_case cases={} nontrivial={} bound=<={}-of-39-fragments+4-of-12-fragments,plain-English,curated-dictionary", cases, nontrivial, depth);
+    println!("RAC-OK title_case cases={} nontrivial={} bound=<={}-of-42-fragments+4-of-12-fragments,plain-English,curated-dictionary", cases, nontrivial, depth);
 }
